@@ -58,8 +58,8 @@ TReset     == IsEv("Reset") /\ ResetMsg("RUNNING") /\ lastRan' = [p \in Procs |-
               /\ rec' = << >> /\ inProxy' = [p \in Procs |-> 0] /\ pend' = [p \in Procs |-> NoCall] /\ plain' = << >>
 
 (* ---- broadcasts (TpBcast) ---- *)
-TCallB     == IsEv("call.bsend") /\ Call(E.t, "bsend", E.m, E.f) /\ KeepM
-TCallCb    == IsEv("call.cbsend") /\ Call(E.t, "cbsend", E.m, E.f) /\ KeepM
+TCallB     == IsEv("call.bsend") /\ Call(E.t, "bsend", E.m, E.f, E.nthr) /\ KeepM
+TCallCb    == IsEv("call.cbsend") /\ Call(E.t, "cbsend", E.m, E.f, E.nthr) /\ KeepM
 TRecInit   == (IsEv("bsend.init") \/ IsEv("cbsend.init")) /\ RecInit(E.a, E.t, E.v) /\ KeepM
 TProxy     == (IsEv("sync.proxy") \/ IsEv("obo.proxy")) /\ KeepM
               /\ lastRan[E.t] # 0 /\ ProxyBegin(E.t, E.b, ran[lastRan[E.t]].i)
